@@ -3,19 +3,24 @@ from contracts import misc_small  # noqa
 from props._generic import run_property, replay_with_driver
 
 LEVEL = "other"
-KEYS = ["Reaction.copy"]
+KEYS = ["Reaction.copy", "Model.__setstate__", "Reaction.update_variable_bounds"]
 
 
 def run(rep):
     run_property(rep, KEYS, explanation=(
-        "Deductive part is thin and stated as such: Reaction.copy is proved (four loop invariants over the reaction's metabolites and "
-        "genes in any iteration order) to return a different, detached object and to leave EVERY model pointer of the operand, its "
-        "metabolites and its genes as found on normal return, relative to the assumed contract of copy.deepcopy and the cross-reference "
-        "invariant (members belong to the reaction's model). Model.copy iterates over __dict__ of arbitrary objects and relies on "
+        "Deductive part: Reaction.copy is proved (two loop invariants over the recorded (member, model) pairs, built from the "
+        "reaction's metabolites and genes in any iteration order) to return a different, detached object and to leave EVERY model "
+        "pointer of the operand, its metabolites and its genes as found on normal return - also for a reaction that has been removed "
+        "from its model while its members stayed (the defect repaired by 14a80b8) - relative to the assumed contract of "
+        "copy.deepcopy. Model.__setstate__ (the receiving end of deepcopy and pickle) is proved to install the state and to point "
+        "every reaction, gene, metabolite and group of the restored lists at the restored model (loop invariants; groups were "
+        "missing before d50da1c) and, when a solver came with the state, to leave every reaction's solver variables encoding its "
+        "bounds (range lemma of C01 re-established by update_variable_bounds for each reaction; infinite bounds did not survive "
+        "before fdf97f9), given distinct solver variables per reaction. Model.copy iterates over __dict__ of arbitrary objects and relies on "
         "copy/deepcopy and the solver's own deep copy; its separation property is not within the verifier's reach: bounded driver "
         "(snapshot equality of copy/deepcopy/pickle incl. the solver problem, then every edit and depth-2 edit sequence incl. in-place "
         "edits of notes/annotations applied to one side with the other side compared, reaction arithmetic operands unchanged)."),
-        trusted=["copy.copy / copy.deepcopy / pickle (assumed)", "an exception inside deepcopy would leave the pointers cleared "
+        trusted=["copy.copy / copy.deepcopy / pickle (assumed)", "Model.tolerance setter touches only the solver configuration (assumed contract)", "an exception inside deepcopy would leave the pointers cleared "
                  "(no try/finally in Reaction.copy): outside the contract's normal-return case"])
 
 
